@@ -575,7 +575,12 @@ def work(arg):
                                 cm.t_classes(x, used)
                     for t, _ in (ph.table() or []):
                         cm.t_classes(t, used)
-                    pnames, pedges, phgs = c2.graph_for(used)
+                    try:
+                        pnames, pedges, phgs = c2.graph_for(used)
+                    except KeyError:
+                        # the plan (drawn on the first cluster) mentions a class this cluster's type system does not know
+                        count("provider-history:class-unknown-to-cluster")
+                        continue
                     res = run_phistory(ph, pplan)
                     if res is None:
                         count("provider-history:table-outside-model")
